@@ -415,14 +415,14 @@ def r3c_totals_compared_after_accumulation(ctx):
             if st["lhs"]["l"] == 0 and not st["lhs"]["p"] and st["rv"]["k"] == "agg" and st["rv"].get("variant") == "Ok":
                 ok_exits.add(b)
     for c in adds:
-        total = sh(ne(v.expr(c.args[0], 3)))
+        total = sh(ne(v.deep(c.args[0])))
         cmps = []
         for S in sorted(v.live):
             if v.blocks[S]["t"]["k"] != "switch":
                 continue
             si = v.switch_info(S)
             if si["kind"] == "bin" and si["op"] in ("Gt", "Ge", "Lt", "Le"):
-                a, b2 = sh(ne(v.expr(si["a"], 3))), sh(ne(v.expr(si["b"], 3)))
+                a, b2 = sh(ne(v.deep(si["a"]))), sh(ne(v.deep(si["b"])))
                 if total in (a, b2) and ("caps." in a + b2):
                     cmps.append(S)
         n += 1
